@@ -17,7 +17,7 @@ def compile_ir(src, defines=(), ndebug=True, tag=None):
     """clang -> .ll -> opt normalisation; always regenerated from the current /repo tree"""
     os.makedirs(BUILD, exist_ok=True)
     key = hashlib.sha1((src + repr(sorted(defines)) + str(ndebug) + str(tag)).encode()).hexdigest()[:12]
-    base = os.path.join(BUILD, os.path.basename(src).replace('.cpp', '') + '_' + key)
+    base = os.path.join(BUILD, os.path.basename(src).replace('.cpp', '') + '_' + key + '_%d' % os.getpid())
     ll = base + '.ll'; ll2 = base + '.n.ll'
     cmd = [CLANG] + CFLAGS + (['-DNDEBUG'] if ndebug else []) + ['-D' + d for d in defines] + [src, '-o', ll]
     t0 = time.time()
@@ -30,6 +30,7 @@ def compile_ir(src, defines=(), ndebug=True, tag=None):
         raise Exception('opt failed: ' + r.stdout[-2000:])
     txt = open(ll2).read()
     os.unlink(ll)
+    if not os.environ.get('XSYM_KEEP_IR'): os.unlink(ll2)
     return txt, ll2, time.time() - t0
 
 
@@ -55,7 +56,7 @@ class ScenarioResult:
 
 
 def decide(m, sc_name, timeout=120, portfolio=solve.DEFAULT_PORTFOLIO, extra_goals=(), workdir=None,
-           assume_no_unwind=True, check_unwind=True, expected_cover=(), log=None):
+           assume_no_unwind=True, check_unwind=True, expected_cover=(), log=None, max_violations=2, par=6, split_above=1500, max_chunks=4):
     """pose every obligation of machine m to the solver. Returns ScenarioResult"""
     res = ScenarioResult(sc_name)
     workdir = workdir or os.path.join(BUILD, 'smt')
@@ -66,58 +67,85 @@ def decide(m, sc_name, timeout=120, portfolio=solve.DEFAULT_PORTFOLIO, extra_goa
             res.error = 'loop bound exceeded on every path: ' + '; '.join(w for g, w in m.unwound if g is True)
             return res
 
-    def ask(name, kind, goal, nass, where=None):
-        ass = m.assumptions[:nass] + noun
+    # executions that touch an operation the engine cannot encode are excluded here and reported separately
+    noun = noun + [Not(g) for g, w in getattr(m, 'unsupported', [])]
+    import threading, concurrent.futures
+    lock = threading.Lock()
+
+    def ask(name, kind, goal, nass, where=None, use_noun=True):
+        ass = m.gassumptions + m.assumptions[:nass] + (noun if use_noun else [])
         r = solve.check_sat(ass, goal, timeout, portfolio, workdir, tag=sc_name[:20])
-        res.solver_time += r.time
         o = Outcome(name, kind, r.status, r.time, r.solver, r.error, r.model, where)
-        res.outcomes.append(o)
-        if log: log('    %-28s %-8s %6.2fs %s' % (name[:28], r.status, r.time, r.solver or r.error))
+        with lock:
+            res.solver_time += r.time
+            res.outcomes.append(o)
+            if log: log('    %-36s %-8s %6.2fs %s' % (name[:36], r.status, r.time, r.solver or r.error))
         return o, r
 
-    # group obligations by (nassume); one query for the OR, then split if sat
-    groups = {}
-    for i, ob in enumerate(m.obligations):
-        groups.setdefault((ob.nassume,), []).append((i, ob))
-    for (nass,), obs in sorted(groups.items()):
+    def safety_chain(nass, obs, label):
         pending = list(obs)
         rounds = 0
         while pending:
             goal = OrL(ob.cond for i, ob in pending)
-            name = 'safety[%d obligations, %d assumptions]' % (len(pending), nass)
+            name = 'safety%s[%d obligations, %d assumptions]' % (label, len(pending), nass)
             o, r = ask(name, 'safety-group', goal, nass)
             if r.status == 'unsat': break
             if r.status != 'sat':
-                res.inconclusive.append(o); break
-            # find which obligations are violated in the model
+                with lock: res.inconclusive.append(o)
+                break
             cache = {}
             bad = [(i, ob) for i, ob in pending if evaluate(ob.cond, r.model, cache) is True]
             if not bad:
                 o.status = 'unknown'; o.detail = 'model does not satisfy any disjunct (model parse?)'
-                res.inconclusive.append(o); break
+                with lock: res.inconclusive.append(o)
+                break
             i, ob = bad[0]
-            res.violations.append({'kind': ob.kind, 'where': ob.where, 'model': r.model, 'tag': ob.tag if isinstance(ob.tag, int) else None,
-                                   'obligation_index': i})
-            # look for further, different violations (other kinds / sites) without this one
+            with lock:
+                res.violations.append({'kind': ob.kind, 'where': ob.where, 'model': r.model, 'tag': ob.tag if isinstance(ob.tag, int) else None,
+                                       'obligation_index': i})
             pending = [(j, o2) for j, o2 in pending if (o2.kind, o2.where) != (ob.kind, ob.where)]
             rounds += 1
-            if rounds >= 8: break
-    # extra goals: (name, kind, term, expect) - 'sat' expected for cover goals
-    for cid, g in sorted(m.covers.items()):
+            if rounds >= max_violations: break
+
+    def unsupported_task():
+        goal = OrL(g for g, w in m.unsupported)
+        o, r = ask('unsupported-operations-unreachable[%d]' % len(m.unsupported), 'engine-limit', goal, len(m.assumptions))
+        if r.status != 'unsat':
+            msg = m.unsupported[0][1]
+            if r.status == 'sat':
+                cache = {}
+                for g, w in m.unsupported:
+                    if evaluate(g, r.model, cache) is True: msg = w; break
+            o.detail = 'reachable operation outside the encodable subset: ' + msg
+            with lock: res.inconclusive.append(o)
+
+    def cover_task(cid, g):
         o, r = ask('cover#%d' % cid, 'cover', g, len(m.assumptions))
-        res.cover[cid] = r.status
-    for cid in expected_cover:
-        if cid not in m.covers:
-            res.cover[cid] = 'never-reached'
-    if check_unwind and m.unwound:
+        with lock: res.cover[cid] = r.status
+
+    def unwind_task():
         goal = OrL(g for g, w in m.unwound)
-        r = solve.check_sat(m.assumptions, goal, timeout, portfolio, workdir, tag=sc_name[:20])
-        res.solver_time += r.time
-        res.outcomes.append(Outcome('unwinding-assertion[%d loops]' % len(m.unwound), 'unwind', r.status, r.time, r.solver, r.error))
+        o, r = ask('unwinding-assertion[%d loops]' % len(m.unwound), 'unwind', goal, len(m.assumptions), use_noun=False)
         res.unwound_complete = (r.status == 'unsat')
-        if log: log('    %-28s %-8s %6.2fs' % ('unwinding assertion', r.status, r.time))
-    elif not m.unwound:
-        res.unwound_complete = True
+
+    tasks = []
+    groups = {}
+    for i, ob in enumerate(m.obligations):
+        groups.setdefault(ob.nassume, []).append((i, ob))
+    for nass, obs in sorted(groups.items()):
+        nchunks = 1 if len(obs) <= split_above else min(max_chunks, (len(obs) + split_above - 1) // split_above)
+        for c in range(nchunks):
+            tasks.append((safety_chain, (nass, obs[c::nchunks], '' if nchunks == 1 else '/%d' % c)))
+    if getattr(m, 'unsupported', None): tasks.append((unsupported_task, ()))
+    for cid, g in sorted(m.covers.items()): tasks.append((cover_task, (cid, g)))
+    for cid in expected_cover:
+        if cid not in m.covers: res.cover[cid] = 'never-reached'
+    if check_unwind and m.unwound: tasks.append((unwind_task, ()))
+    elif not m.unwound: res.unwound_complete = True
+    with concurrent.futures.ThreadPoolExecutor(max_workers=par) as ex:
+        futs = [ex.submit(f, *a) for f, a in tasks]
+        for f in futs: f.result()
+    res.outcomes.sort(key=lambda o: o.name)
     res.stats = dict(m.stats); res.stats['terms'] = term.nterms(); res.stats['obligations'] = len(m.obligations)
     res.stats['heap_cells'] = len(m.mem)
     res.funcs = dict(m.funcs_encoded)
